@@ -202,7 +202,18 @@ class Crate:
         self.traits = {t['path']: t for t in self.raw['traits']}
 
     def body(self, path):
-        return self.bodies.get(path)
+        b = self.bodies.get(path)
+        if b is None and path and '::<impl ' in path:
+            # an impl block moved to another module of the crate: same impl, same method, another module prefix
+            if not hasattr(self, '_impl_alias'):
+                self._impl_alias = {}
+                for k in self.bodies:
+                    if '::<impl ' in k:
+                        self._impl_alias.setdefault(k[k.index('<impl '):], []).append(k)
+            cands = self._impl_alias.get(path[path.index('<impl '):], [])
+            if len(cands) == 1:
+                return self.bodies[cands[0]]
+        return b
 
     def bodies_matching(self, pred):
         return [b for b in self.body_list if pred(b)]
